@@ -1,9 +1,12 @@
 /-
 C07 — theorems about the recovery search of the verification model
 (`lookForFix`, Model/Verify.lean; Go: verify.go:655-735).
-The whole-loop statement is kept at full strength as `C07_sound_statement`.
+The whole-loop statement is kept at full strength as `C07_sound_statement`; the whole-loop theorems
+`C07_relative_tolerated` / `C07_full_tolerated` (bottom of the file) prove it up to the link between
+`verifyEntry` and the declarative authorization (C01), for references without propagation entries.
 -/
-import Gittuf.Spec.C07
+import Gittuf.Proofs.Recovery
+import Gittuf.Props.C01
 namespace Gittuf
 namespace World
 
@@ -146,6 +149,248 @@ example :
                { kind := .ann, refs := [1], skip := true },
                { kind := .ref, ref := "refs/heads/main", target := .commit 2 } ] }
     W.lookForFix "refs/heads/main" 0 [3] [] false = (some 3, false, []) := by decide
+
+/-! ## The whole loop -/
+
+/-- no propagation entry was recorded for `ref` inside the verified range -/
+def NoRefProp (W : World) (ref : String) (first last : Nat) : Prop :=
+  ∀ (j : Nat) (e : LogEntry), first ≤ j → j ≤ last → W.log[j]? = some e → e.ref = ref → e.kind ≠ .prop
+
+theorem range_bounds (W : World) (first last : Nat) (ref : String) (j : Nat)
+    (h : j ∈ W.range first last ref) :
+    first ≤ j ∧ j ≤ last ∧ ∃ e, W.log[j]? = some e ∧ isUpdater e = true ∧
+      (ref.isEmpty = true ∨ e.ref = ref ∨ isRelevantGittufRef e.ref = true) := by
+  unfold range at h
+  obtain ⟨hd, hp⟩ := List.mem_filter.mp h
+  rw [List.mem_drop_iff_getElem] at hd
+  obtain ⟨i, hi, hget⟩ := hd
+  simp only [List.getElem_range] at hget
+  simp only [List.length_range] at hi
+  refine ⟨by omega, by omega, ?_⟩
+  split at hp
+  · cases hp
+  · rename_i e he
+    refine ⟨e, he, ?_⟩
+    simp only [Bool.and_eq_true, Bool.or_eq_true, beq_iff_eq] at hp
+    refine ⟨hp.1, ?_⟩
+    rcases hp.2 with (h | h) | h
+    · exact Or.inl h
+    · exact Or.inr (Or.inl h)
+    · exact Or.inr (Or.inr h)
+
+/-- the queue of `VerifyRelativeForRef` for a branch without propagation entries satisfies the
+invariant of the loop theorem -/
+theorem range_QInv (W : World) (first last : Nat) (ref : String)
+    (hne : ref.isEmpty = false)
+    (hnp : W.NoRefProp ref first last) :
+    QInv W ref last first (W.range first last ref) := by
+  refine ⟨?_, ?_, ?_, ?_⟩
+  · unfold range
+    exact List.Pairwise.sublist (List.filter_sublist.trans (List.drop_sublist _ _)) List.pairwise_lt_range
+  · intro k hk; exact (range_bounds W first last ref k hk).2.1
+  · intro k hk e he hb
+    obtain ⟨h1, h2, e', he', hu, hor⟩ := range_bounds W first last ref k hk
+    rw [he] at he'; cases he'
+    have href : e.ref = ref := by
+      rcases hor with h | h | h
+      · rw [hne] at h; cases h
+      · exact h
+      · simp only [isRelevantGittufRef, Bool.and_eq_true] at h
+        rw [h.1] at hb; cases hb
+    refine ⟨href, ?_, h1⟩
+    have hnprop := hnp k e h1 h2 he href
+    have hnann : e.kind ≠ .ann := by simpa [isUpdater] using hu
+    cases hk : e.kind with
+    | ref => rfl
+    | ann => exact absurd hk hnann
+    | prop => exact absurd hk hnprop
+  · intro k hk1 hk2 hk3
+    unfold refK at hk3
+    split at hk3
+    · rename_i e he
+      simp only [Bool.and_eq_true, beq_iff_eq] at hk3
+      exact range_mem W first last ref k e hk1 hk2 he (by simp [isUpdater, hk3.1]) hk3.2
+    · cases hk3
+
+/-- **C07 for relative verification**, every history, range and variant: if
+`VerifyRelativeForRef` accepts the range of a branch that has no propagation entries in it, every
+entry recorded for the branch in the range was accepted by `verifyEntry` under a policy and an
+attestation state in force during the walk, or is tolerated exactly as the property demands
+(revoked; a later unrevoked entry of the branch restores the tree of the last unrevoked entry
+before it; every entry of the branch in between is revoked) — or, only with defect F3, is the
+unverified fix of a tolerated entry. -/
+theorem C07_relative_tolerated (W : World) (v : Variant) (first last : Nat) (ref : String)
+    (hne : ref.isEmpty = false) (hr : hasPrefix ref gittufPrefix = false)
+    (hnp : W.NoRefProp ref first last)
+    (h : W.verifyRelative v first last ref = .ok ()) :
+    ∃ st, ∀ j e, first ≤ j → j ≤ last → W.log[j]? = some e → isUpdater e = true → e.ref = ref →
+      EntryOK7 W v ref last st (W.range first last ref) j e := by
+  unfold verifyRelative at h
+  split at h
+  · cases h
+  · rename_i pol hpol
+    split at h
+    · cases h
+    · rename_i att hatt
+      refine ⟨{ policy := pol, att := att }, ?_⟩
+      intro j e hj1 hj2 he hu href
+      exact relLoop_recovery_gen W v first ref last hr _ _ _ first
+        (range_QInv W first last ref hne hnp) h j
+        (range_mem W first last ref j e hj1 hj2 he hu href) e he (href ▸ hr)
+
+/-- what `latestFor … (unskipped) (refOnly)` returns is an unrevoked reference entry of `r` below the bound -/
+theorem latestFor_spec (W : World) (r : String) (j lg : Nat)
+    (h : W.latestFor r j (unskipped := true) (refOnly := true) = some lg) :
+    lg < j ∧ W.refK r lg = true ∧ W.skipped lg = false := by
+  unfold latestFor at h
+  have hp := List.find?_some h
+  have hm := List.mem_of_find?_eq_some h
+  simp only [below, List.mem_reverse, List.mem_range] at hm
+  refine ⟨hm, ?_⟩
+  split at hp
+  · cases hp
+  · rename_i e he
+    simp only [Bool.not_true, Bool.false_or, Bool.true_and, Bool.and_eq_true, beq_iff_eq,
+      Bool.or_eq_true, Bool.not_eq_true'] at hp
+    obtain ⟨⟨⟨_, href⟩, hkind⟩, hsk⟩ := hp
+    refine ⟨by simp [refK, he, hkind, href], ?_⟩
+    rcases hsk with hsk | hsk
+    · rw [hkind] at hsk; simp at hsk
+    · exact hsk
+
+/-- every reference entry of `ref` names a commit (entries that delete the reference are outside
+the recovery rule: the code cannot take the tree of the zero id) -/
+def RefTargetsCommits (W : World) (ref : String) : Prop :=
+  ∀ (k : Nat) (e : LogEntry), W.log[k]? = some e → e.kind = .ref → e.ref = ref → (targetCommit e).isSome = true
+
+/-- the relational statement implies the executable declarative predicate of Spec/C07 that the
+driver evaluates on the real verifier's verdicts -/
+theorem tolerated_of_TolWith (W : World) (ref : String) (last j f : Nat)
+    (ht : W.RefTargetsCommits ref) (h : TolWith W ref last j f) :
+    W.tolerated ref last j = true := by
+  obtain ⟨lg, fe, hlg, hfe, htree⟩ := h.tree
+  obtain ⟨_, hlgref, _⟩ := latestFor_spec W ref j lg hlg
+  unfold tolerated
+  simp only [h.revoked, Bool.true_and, hlg]
+  rw [List.any_eq_true]
+  refine ⟨f, ?_, ?_⟩
+  · unfold refEntriesIn
+    rw [List.mem_filter]
+    constructor
+    · rw [List.mem_drop_iff_getElem]
+      refine ⟨f - (j + 1), ?_, ?_⟩
+      · simp only [List.length_range]; have := h.lt; have := h.le; omega
+      · simp only [List.getElem_range]; have := h.lt; omega
+    · have := h.fixRef
+      unfold refK at this
+      split at this
+      · rename_i e he; simp [he, this]
+      · cases this
+  · -- the fix restores the tree of the last unrevoked entry, and everything in between is revoked
+    have hfk : fe.kind = .ref ∧ fe.ref = ref := by
+      have := h.fixRef
+      simp only [refK, hfe, Bool.and_eq_true, beq_iff_eq] at this
+      exact this
+    obtain ⟨cf, hcf⟩ := Option.isSome_iff_exists.mp (ht f fe hfe hfk.1 hfk.2)
+    unfold refK at hlgref
+    split at hlgref
+    · rename_i le hle
+      simp only [Bool.and_eq_true, beq_iff_eq] at hlgref
+      obtain ⟨cl, hcl⟩ := Option.isSome_iff_exists.mp (ht lg le hle hlgref.1 hlgref.2)
+      have h1 : W.entryTree f = some (W.treeOf cf) := by simp [entryTree, hfe, hcf]
+      have h2 : W.entryTree lg = some (W.treeOf cl) := by simp [entryTree, hle, hcl]
+      have h3 : W.treeOf cf = W.treeOf cl := by
+        simpa [treeOfEntry, goodTreeAt, hcf, hle, hcl] using htree
+      simp only [h.fixUnrevoked, Bool.not_false, Bool.true_and, h1, h2, h3, beq_self_eq_true,
+        Option.isSome_some]
+      rw [List.all_eq_true]
+      intro k hk
+      unfold refEntriesIn at hk
+      obtain ⟨hd, hp⟩ := List.mem_filter.mp hk
+      rw [List.mem_drop_iff_getElem] at hd
+      obtain ⟨i, hi, hget⟩ := hd
+      simp only [List.getElem_range] at hget
+      simp only [List.length_range] at hi
+      have hlt := h.lt
+      refine h.between k (by omega) (by omega) ?_
+      unfold refK
+      split at hp
+      · rename_i e he; simpa [he] using hp
+      · cases hp
+    · cases hlgref
+
+/-- **C07 for full verification** (repaired variant): if `VerifyRefFull` accepts a branch without
+propagation entries whose entries all name commits, every entry recorded for the branch was accepted
+by `verifyEntry` under a state in force during the walk, or satisfies the executable predicate
+`tolerated` of Spec/C07 — the statement `C07_sound_statement` with "authorized" read as "accepted by
+`verifyEntry`" (the link to the declarative authorization is C01's `C01_entry_authorized_git`). -/
+theorem C07_full_tolerated (W : World) (ref : String) (tip : Option Nat)
+    (hne : ref.isEmpty = false) (hr : hasPrefix ref gittufPrefix = false)
+    (ht : W.RefTargetsCommits ref)
+    (h : W.verifyRefFull Variant.good ref = .ok tip) :
+    ∃ f l, W.firstFor ref = some f ∧ W.latestEntryFor ref = some l ∧
+      (W.NoRefProp ref f l →
+        ∃ st, ∀ j e, f ≤ j → j ≤ l → W.log[j]? = some e → isUpdater e = true → e.ref = ref →
+          (∃ P A, SeenPolicy W st (W.range f l ref) P ∧ SeenAtt W st (W.range f l ref) A ∧
+            W.verifyEntry Variant.good P A j e = .ok ()) ∨
+          W.tolerated ref l j = true) := by
+  unfold verifyRefFull at h
+  split at h
+  · rename_i f l hf hl
+    refine ⟨f, l, hf, hl, ?_⟩
+    intro hnp
+    simp only [bind, Except.bind] at h
+    split at h
+    · cases h
+    · rename_i u hrel
+      have hrel' : W.verifyRelative Variant.good f l ref = .ok () := by cases u; exact hrel
+      obtain ⟨st, hst⟩ := C07_relative_tolerated W Variant.good f l ref hne hr hnp hrel'
+      refine ⟨st, ?_⟩
+      intro j e h1 h2 he hu href
+      rcases hst j e h1 h2 he hu href with hv | ⟨fx, htol⟩ | ⟨hf3, _⟩
+      · exact Or.inl hv
+      · exact Or.inr (tolerated_of_TolWith W ref l j fx ht htol)
+      · simp [Variant.good] at hf3
+  · cases h
+
+/-! ### The hypotheses are decidable and satisfiable -/
+
+def noRefPropB (W : World) (ref : String) : Bool :=
+  W.log.all (fun e => !(e.ref == ref && e.kind == .prop))
+
+def refTargetsCommitsB (W : World) (ref : String) : Bool :=
+  W.log.all (fun e => !(e.kind == .ref && e.ref == ref) || (targetCommit e).isSome)
+
+theorem noRefProp_of_B (W : World) (ref : String) (first last : Nat) (h : W.noRefPropB ref = true) :
+    W.NoRefProp ref first last := by
+  intro j e _ _ he href hk
+  have := List.all_eq_true.mp h e (List.mem_of_getElem? he)
+  simp [href, hk] at this
+
+theorem refTargetsCommits_of_B (W : World) (ref : String) (h : W.refTargetsCommitsB ref = true) :
+    W.RefTargetsCommits ref := by
+  intro k e he hk href
+  have := List.all_eq_true.mp h e (List.mem_of_getElem? he)
+  simpa [href, hk] using this
+
+/-- good A; bad B by an outsider; revocation; fix C by the authorized key with A's tree -/
+def wRec : World := {
+  trees := [[("README", 1)], [("README", 2)]],
+  commits := [⟨[], 0, some 2⟩, ⟨[0], 1, some 8⟩, ⟨[1], 0, some 2⟩],
+  policies := [wPol], atts := [],
+  log := [polEntry 0, push 0 2, push 1 8, { kind := .ann, refs := [2], skip := true, signer := some 2 }, push 2 2] }
+
+/-- non-vacuity of `C07_full_tolerated`: a history with a tolerated violation meets every
+hypothesis, is accepted by the repaired variant, its violating entry is rejected by `verifyEntry`
+and satisfies `tolerated`; the same history without the revocation is rejected -/
+example :
+    wRec.verifyRefFull Variant.good mainRef = .ok (some 2) ∧
+    mainRef.isEmpty = false ∧ hasPrefix mainRef gittufPrefix = false ∧
+    wRec.noRefPropB mainRef = true ∧ wRec.refTargetsCommitsB mainRef = true ∧
+    (wRec.verifyEntry Variant.good wPol none 2 (push 1 8)).isOk = false ∧
+    wRec.tolerated mainRef 4 2 = true ∧ wRec.c07Sound mainRef 1 4 = true ∧
+    ({ wRec with log := [polEntry 0, push 0 2, push 1 8, push 2 2] } : World).verifyRefFull Variant.good mainRef
+      = .error .verif := by decide
 
 end World
 end Gittuf
